@@ -226,26 +226,75 @@ def live_params():
         from lian import preparation
         import types
         wb = preparation.WorkspaceBuilder(types.SimpleNamespace(workspace="x"))
-        _PARAMS = {"subdirs": list(wb.required_subdirs), "src_dir": config.SOURCE_CODE_DIR,
+        _PARAMS = {"backup_dir": config.BACKUP_DIR,
+                   "subdirs": list(wb.required_subdirs), "src_dir": config.SOURCE_CODE_DIR,
                    "externs_dir": config.EXTERNS_DIR, "default": config.DEFAULT_WORKSPACE,
                    "mock_dir": config.EXTERNS_MOCK_CODE_DIR}
     return _PARAMS
 
 
-def argv_of(case, root):
+def runs_of(case):
+    """the consecutive lian runs of a placement: [{"force": bool, "flags": [extra argv]}]; one by default"""
+    return case.get("runs") or [{"force": case["force"], "flags": list(case.get("flags") or [])}]
+
+
+def is_plain(case):
+    """one run without extra flags: the only shape the Lean model covers (everything else is oracle-only)"""
+    runs = runs_of(case)
+    return len(runs) == 1 and not runs[0]["flags"]
+
+
+def argv_of(case, root, run=None):
+    run = run or runs_of(case)[0]
     argv = [case.get("sub", "lang"), "-l", case.get("lang", "python"), "-q"]
     if case.get("ws") is not None:
         argv += ["-w", subst(case["ws"], root)]
-    if case["force"]:
+    if run["force"]:
         argv.append("-f")
     if not case.get("mock"):
         argv.append("--nomock")
+    argv += [subst(f, root) for f in run["flags"]]
     return argv + [subst(i, root) for i in case["inputs"]]
 
 
-def real_inproc(case, root, top):
-    """Run the real preparation in-process on the tree already built at `root`, return
-    (before, after, status, exts, dst->src map, message)."""
+_STUB_BIN = {}
+
+STUB_CLANG = """#!/bin/sh
+# hermetic stand-in for clang/clang++ -P -E <in> -o <out> [-I dir]: writes its -o target, nothing else
+in=""; out=""
+while [ $# -gt 0 ]; do
+  case "$1" in
+    -o) out="$2"; shift;;
+    -I) shift;;
+    -*) ;;
+    *) in="$1";;
+  esac
+  shift
+done
+[ -n "$out" ] && cat "$in" > "$out"
+exit 0
+"""
+
+
+def stub_bin():
+    """directory with stub `clang`/`clang++` (per process, below the scratch root, never inside a case tree)"""
+    pid = os.getpid()
+    if pid not in _STUB_BIN:
+        d = os.path.join(scratch_root(), "stub-bin")
+        _ORIG_MAKEDIRS(d, exist_ok=True)
+        for name in ("clang", "clang++"):
+            fn = os.path.join(d, name)
+            with open(fn, "w") as f:
+                f.write(STUB_CLANG)
+            os.chmod(fn, 0o755)
+        _STUB_BIN[pid] = d
+    return _STUB_BIN[pid]
+
+
+def real_inproc(case, root, top, run=None):
+    """Run the real preparation in-process (one run) on the tree already built at `root`, return
+    (before, after, status, exts, dst->src map, message, cwd_deleted)."""
+    run = run or runs_of(case)[0]
     common.use_repo()
     from lian.main import Lian
     from lian import preparation
@@ -253,13 +302,15 @@ def real_inproc(case, root, top):
     cwd = os.path.join(root, case["cwd"])
     before = snapshot(top)
     old_argv, old_cwd, old_mock = sys.argv, os.getcwd(), config.EXTERNS_MOCK_CODE_DIR
+    old_path = os.environ.get("PATH", "")
     depth_limit = max([p.count("/") for p in before] + [root.count("/")]) + 24
     status, exts, mapping, msg = "ok", None, {}, ""
     cwd_ino = os.stat(cwd).st_ino
     sink = io.StringIO()
     try:
         os.chdir(cwd)
-        sys.argv = ["lian"] + argv_of(case, root)
+        sys.argv = ["lian"] + argv_of(case, root, run)
+        os.environ["PATH"] = stub_bin() + os.pathsep + old_path      # -I: hermetic clang / clang++
         if case.get("mock"):
             config.EXTERNS_MOCK_CODE_DIR = os.path.join(root, case["mock"])
         with contextlib.redirect_stdout(sink), contextlib.redirect_stderr(sink), patched_os(depth_limit):
@@ -284,6 +335,7 @@ def real_inproc(case, root, top):
                     status = "runaway"
     finally:
         sys.argv = old_argv
+        os.environ["PATH"] = old_path
         config.EXTERNS_MOCK_CODE_DIR = old_mock
         os.chdir(old_cwd)
     after = snapshot(top)
@@ -303,8 +355,9 @@ def lang_exts(lang):
     if lang not in _EXTS:
         common.use_repo()
         from lian.config import lang_config
-        lang_config.update_lang_extensions(lang_config.LANG_TABLE, [lang])
-        _EXTS[lang] = list(lang_config.LANG_EXTENSIONS.get(lang, []))
+        langs = [l.strip() for l in lang.split(",") if l.strip()]
+        lang_config.update_lang_extensions(lang_config.LANG_TABLE, langs)
+        _EXTS[lang] = [e for l in langs for e in lang_config.LANG_EXTENSIONS.get(l, [])]
     return _EXTS[lang]
 
 
@@ -313,7 +366,7 @@ def model_request(case, root, top, before, exts, variant="live", fuel=None):
     req = {"m": "workspace", "op": "prepare", "variant": variant,
            "cwd": os.path.join(root, case["cwd"]).rstrip("/"),
            "ws": subst(case["ws"], root) if case.get("ws") is not None else P["default"],
-           "inputs": [subst(i, root) for i in case["inputs"]], "force": bool(case["force"]),
+           "inputs": [subst(i, root) for i in case["inputs"]], "force": bool(runs_of(case)[0]["force"]),
            "exts": exts, "subdirs": P["subdirs"], "src_dir": P["src_dir"], "externs_dir": P["externs_dir"],
            "default": P["default"],
            "mock": os.path.join(root, case["mock"]) if case.get("mock") else None,
@@ -345,9 +398,13 @@ def inside(p, w):
     return p == w or p.startswith(w.rstrip("/") + "/")
 
 
-def oracle(case, root, before, after, status, pre):
-    """returns a list of (kind, detail) violations.  `pre` = facts computed BEFORE the run:
-    W (physical workspace directory), realpaths of the inputs."""
+def oracle(case, root, before, after, status, pre, run=None):
+    """returns a list of (kind, detail) violations for ONE run.  `pre` = facts computed BEFORE the run:
+    W (physical workspace directory), realpaths of the inputs.  `run` = {"force", "flags"} of that run."""
+    run = run or runs_of(case)[0]
+    force = run["force"]
+    incremental = any(f in ("--incremental", "-inc") for f in run["flags"])
+    flagged = bool(run["flags"])
     W = pre["W"]
     viol = []
     changed = sorted(p for p in set(before) | set(after) if before.get(p) != after.get(p))
@@ -361,8 +418,15 @@ def oracle(case, root, before, after, status, pre):
         out_changed.append(p)
     if out_changed:
         viol.append(("outside-workspace-changed", out_changed[:6]))
-    if not case["force"] and changed:
+    if not force and not incremental and changed:
         viol.append(("changed-without-force", changed[:6]))
+    if not force and incremental:
+        # --incremental re-uses the workspace: it may add and overwrite below W, but without --force the only
+        # thing it may delete is its own previous backup (<W>/bak)
+        bak = os.path.join(W, live_params()["backup_dir"])
+        gone = [p for p in changed if p in before and p not in after and not inside(p, bak)]
+        if gone:
+            viol.append(("deleted-without-force", gone[:6]))
     # deletions / modifications inside the workspace: only previous contents, only when forced — and
     # never a designated input (or anything below it)
     for i, real in zip(case["inputs"], pre["input_real"]):
@@ -378,6 +442,8 @@ def oracle(case, root, before, after, status, pre):
     n_new_files = sum(1 for p, v in after.items() if v[0] == "f" and before.get(p) != v
                       and (roots is None or any(inside(p, r) for r in roots)))
     bound = (len(case["inputs"]) + 1) * max(n_files_before, 1)
+    if flagged:      # -I adds <unit>_processed.<ext> and <unit>.i per copied unit; --incremental copies W into W/bak
+        bound = 3 * bound + n_files_before
     depth_before = max([p.count("/") for p in before] + [W.count("/")])
     depth_after = max([p.count("/") for p in after] + [0])
     if status_class(status) == "runaway" or n_new_files > bound or depth_after > 2 * depth_before + 8:
@@ -412,12 +478,12 @@ def has_interior_dotdot(ws):
     return False
 
 
-def match_known(case, root, pre, viols, before, after):
+def match_known(case, root, pre, viols, before, after, run=None):
     """returns finding id when *all* violations of this placement are explained by one open finding"""
     kinds = {k for k, _ in viols}
     W = pre["W"]
     # (a) the workspace itself is passed as an input under --force: its previous contents are deleted
-    if kinds == {"input-in-workspace-destroyed"} and case["force"]:
+    if kinds == {"input-in-workspace-destroyed"} and (run or runs_of(case)[0])["force"]:
         if all(d["identical"] for _, d in viols):
             return "C18/input-is-workspace"
     # (b) `..` after a symbolic link in the workspace option: manage_directory works on the textual
@@ -435,6 +501,25 @@ def match_known(case, root, pre, viols, before, after):
                 ok = False
         if ok:
             return "C18/ws-dotdot-after-symlink"
+    # (c) --incremental (no --force) over an old workspace that already holds a symbolic link below src/ or externs/:
+    #     makedirs / copy2 go through the link and create or overwrite files at its target
+    r = run or runs_of(case)[0]
+    if kinds == {"outside-workspace-changed"} and not r["force"] and any(f in ("--incremental", "-inc") for f in r["flags"]):
+        P = live_params()
+        areas = [os.path.join(W, P["src_dir"]), os.path.join(W, P["externs_dir"])]
+        targets = [os.path.realpath(p) for p, v in before.items()
+                   if v[0] == "l" and any(inside(p, a) for a in areas)]
+        changed = [p for p in set(before) | set(after) if before.get(p) != after.get(p) and not inside(p, W)
+                   and not (p not in before and after.get(p) == ("d",) and inside(W, p))]
+        if targets and changed and all(p in after and any(inside(p, t) for t in targets) for p in changed):
+            return "C18/incremental-writes-through-workspace-link"
+    # (d) --incremental (no --force): an input that lies inside the kept workspace at the very place where the copy
+    #     of another input lands is overwritten by that copy (nothing is deleted, nothing outside W changes)
+    if kinds == {"input-in-workspace-destroyed"} and not r["force"] and any(f in ("--incremental", "-inc") for f in r["flags"]):
+        outside_files = {v for q, v in before.items() if v[0] == "f" and not inside(q, W)}
+        if all(not d["identical"] and all(p in after and after[p][0] == "f" and after[p] in outside_files for p in d["paths"])
+               for _, d in viols):
+            return "C18/incremental-overwrites-input-inside-workspace"
     return None
 
 
@@ -475,6 +560,31 @@ WS_KINDS = {
     "dotdot-plain":      ("proj/../out3", "cwd/out3/lian_workspace"),
 }
 
+# C / C++ sources for the flag dimension (-I needs them); x_processed.c is the name -I itself would produce for x.c
+C_TREE = [
+    ["cwd/cproj/m.c", "f", 40], ["cwd/cproj/m_processed.c", "f", 41], ["cwd/cproj/inc/u.h", "f", 42],
+    ["cwd/cproj/sub/k.cpp", "f", 43], ["cwd/cproj/sub/k.i", "f", 44], ["cwd/cproj/notes.txt", "f", 45],
+    ["cwd/cproj/lk.c", "l", "m.c"], ["cwd/one.c", "f", 46], ["hdrs/h.h", "f", 47],
+]
+
+# extra flags x languages; everything here is judged by the snapshot oracle only (the Lean model covers none of them)
+FLAG_SETS = {
+    "I-c":            ("c",        [{"force": True,  "flags": ["-I"]}]),
+    "I-c-cpp":        ("c,cpp",    [{"force": True,  "flags": ["-I"]}]),
+    "I-mix":          ("python,c", [{"force": True,  "flags": ["-I"]}]),
+    "I-hdrs":         ("c",        [{"force": True,  "flags": ["-I", "-i", "$R/hdrs"]}]),
+    "I-noforce":      ("c",        [{"force": False, "flags": ["-I"]}]),
+    "strict":         ("python,c", [{"force": True,  "flags": ["--strict-parse-mode"]}]),
+    "strict-I":       ("c",        [{"force": True,  "flags": ["--strict-parse-mode", "-I"]}]),
+    "inc-only":       ("python",   [{"force": False, "flags": ["--incremental"]}]),
+    "force-then-inc": ("python,c", [{"force": True,  "flags": []}, {"force": False, "flags": ["--incremental"]},
+                                    {"force": False, "flags": ["--incremental"]}]),
+    "I-then-inc-I":   ("c",        [{"force": True,  "flags": ["-I"]}, {"force": False, "flags": ["--incremental", "-I"]}]),
+    "inc-force":      ("python",   [{"force": True,  "flags": ["--incremental"]}]),
+}
+
+WS_KINDS["in-cproj"] = ("cproj", "cwd/cproj/lian_workspace")
+
 PREPOP = [
     ["old.txt", "f", 20], ["src/in/x.py", "f", 21], ["src/in/deep/y.py", "f", 22],
     ["frontend/gir", "f", 23], ["ext", "l", "$R/precious"], ["extf", "l", "$R/precious/data.py"],
@@ -499,6 +609,8 @@ def family_placements():
     """the systematic family of DESIGN §5 C18: workspace option x relation x input kind x force x prepopulated"""
     cases = []
     for kind in WS_KINDS:
+        if kind == "in-cproj":          # belongs to the flag family (C sources)
+            continue
         for prepop in (True, False):
             opt, wsdir, tree = ws_tree(kind, prepop)
             wsabs = "$R/" + wsdir
@@ -535,7 +647,28 @@ def family_placements():
     return cases
 
 
-NAMES = ["a", "b", "p", "lian_workspace", "x_lian_workspace_y", "src", "in", "m.py", "n.py", "t.txt", "K.PY", "w"]
+def flag_placements():
+    """the flag dimension: -I with C/C++ inputs, --strict-parse-mode, --incremental (incl. a second and third run
+    over the workspace the first run left), language mixes — x workspace option x inputs x prepopulated"""
+    cases = []
+    for kind in ("absent", "relative", "via-symlink", "symlinked-name", "in-cproj"):
+        for prepop in (True, False):
+            opt, wsdir, tree = ws_tree(kind, prepop)
+            tree = tree + [list(e) for e in C_TREE]
+            wsabs = "$R/" + wsdir
+            input_sets = {"c-dir": ["cproj"], "c-file": ["one.c"], "mixed": ["proj", "cproj", "single.py"],
+                          "ws-inside-input": ["."], "input-inside-ws": [wsabs + "/src/in"]}
+            for rel, inputs in input_sets.items():
+                for fname, (lang, runs) in FLAG_SETS.items():
+                    cases.append({"name": f"flags/{fname}/{kind}/{rel}/{'prepop' if prepop else 'fresh'}",
+                                  "tree": tree, "cwd": "cwd", "ws": opt, "inputs": inputs, "force": runs[0]["force"],
+                                  "runs": [dict(r) for r in runs], "lang": lang, "mock": None})
+    return cases
+
+
+NAMES = ["a", "b", "p", "lian_workspace", "x_lian_workspace_y", "src", "in", "m.py", "n.py", "t.txt", "K.PY", "w",
+         "m.c", "u.h"]
+RANDOM_FLAGS = ["I-c", "I-mix", "I-c-cpp", "strict", "inc-only", "force-then-inc", "I-then-inc-I", "inc-force"]
 
 
 def random_placement(rng):
@@ -593,8 +726,15 @@ def random_placement(rng):
     inputs = [pick_path() for _ in range(rng.randint(1, 3))]
     if not any(e[0] == cwd for e in tree) and cwd:
         tree.append([cwd, "d"])
-    return {"name": "random", "tree": tree, "cwd": cwd, "ws": ws, "inputs": inputs,
+    case = {"name": "random", "tree": tree, "cwd": cwd, "ws": ws, "inputs": inputs,
             "force": rng.random() < 0.8, "mock": None}
+    r = rng.random()
+    if r < 0.2:                         # flag dimension: judged by the oracle only
+        lang, runs = FLAG_SETS[rng.choice(RANDOM_FLAGS)]
+        case.update({"name": "random-flags", "lang": lang, "runs": [dict(x) for x in runs], "force": runs[0]["force"]})
+    elif r < 0.3:                       # plain run in another language mix: still compared with the model
+        case["lang"] = rng.choice(["c", "python,c", "c,cpp"])
+    return case
 
 
 # ----------------------------------------------------------------------------------------------
@@ -605,21 +745,35 @@ _counter = itertools.count()
 
 
 def eval_real(case):
-    """runs the real code on a fresh copy of the placement; returns a record (no model involved)"""
+    """runs the real code on a fresh copy of the placement (all its consecutive runs); returns a record"""
     top = os.path.join(scratch_root(), f"c{next(_counter):06d}")
     root = os.path.join(top, "r0", "r1", "r2")  # links climbing out of $R by ".." stay inside the snapshot
     try:
         build_tree(root, case["tree"])
-        pre = precompute(case, root)
-        pre["extra_files"] = 0
-        before, after, status, exts, mapping, msg, cwd_deleted = real_inproc(case, root, top)
-        viols = oracle(case, root, before, after, status, pre)
-        known = match_known(case, root, pre, viols, before, after) if viols else None
-        rec = {"root": root, "top": top, "pre": pre, "cwd_deleted": cwd_deleted, "status": status, "exts": exts, "msg": msg,
-               "viols": viols, "known": known,
-               "real_fs": canon_real(top, after), "before_fs": canon_real(top, before),
+        runs = runs_of(case)
+        viols, knowns, first_before, first_pre, statuses = [], [], None, None, []
+        cwd_deleted = False
+        for k, r in enumerate(runs):
+            pre = precompute(case, root)
+            pre["extra_files"] = 0
+            before, after, status, exts, mapping, msg, gone = real_inproc(case, root, top, r)
+            cwd_deleted = cwd_deleted or gone
+            v = oracle(case, root, before, after, status, pre, r)
+            if v:
+                knowns.append(match_known(case, root, pre, v, before, after, r))
+                viols += v if len(runs) == 1 else [(kind, {"run": k, "detail": d}) for kind, d in v]
+            if first_before is None:
+                first_before, first_pre = before, pre
+            statuses.append(status)
+            if gone:
+                break
+        known = knowns[0] if knowns and all(x is not None and x == knowns[0] for x in knowns) else None
+        rec = {"root": root, "top": top, "pre": first_pre, "cwd_deleted": cwd_deleted,
+               "status": statuses[-1], "statuses": statuses, "exts": exts, "msg": msg,
+               "viols": viols, "known": known, "oracle_only": not is_plain(case),
+               "real_fs": canon_real(top, after), "before_fs": canon_real(top, first_before),
                "real_map": sorted([k, v] for k, v in mapping.items()),
-               "request": model_request(case, root, top, before, exts)}
+               "request": model_request(case, root, top, first_before, exts)}
         return rec
     finally:
         shutil.rmtree(top, ignore_errors=True)
@@ -673,41 +827,52 @@ def subprocess_run(case, idx):
     top = os.path.join(scratch_root(), f"s{idx:04d}")
     root = os.path.join(top, "r0", "r1", "r2")
     build_tree(root, case["tree"])
-    pre = precompute(case, root)
     P = live_params()
-    pre["extra_files"] = sum(len(f) for _, _, f in os.walk(P["mock_dir"])) if case.get("mock") else 0
-    pre["copy_roots"] = [os.path.join(pre["W"], P["src_dir"]), os.path.join(pre["W"], P["externs_dir"])]
-    before = snapshot(top)
     mock_before = snapshot(P["mock_dir"]) if case.get("mock") else None   # the installation itself must stay untouched
-    argv = argv_of(dict(case, mock=True if case.get("mock") else None), root)
     def limits():
         resource.setrlimit(resource.RLIMIT_FSIZE, (256 << 20, 256 << 20))
     t = time.time()
-    try:
-        p = subprocess.run(["/venv/bin/python", os.path.join(common.REPO, "src/lian/main.py")] + argv,
-                           cwd=os.path.join(root, case["cwd"]), capture_output=True, text=True,
-                           timeout=120, preexec_fn=limits,
-                           # the /venv editable install points at /repo/src: put the tree under test first
-                           env=dict(os.environ, PYTHONPATH=os.path.join(common.REPO, "src")))
-        status = "ok" if p.returncode == 0 else ("quit" if "[ERROR]" in p.stderr and "Traceback" not in p.stderr
-                                                 else "exc:exit%d" % p.returncode)
-        if "File name too long" in p.stderr:
-            status = "runaway"
-        tail = (p.stderr or "")[-300:]
-    except subprocess.TimeoutExpired:
-        status, tail = "runaway", "timeout 120 s"
-    after = snapshot(top)
-    viols = oracle(case, root, before, after, status, pre)
+    viols, knowns, statuses, tail, n_ws = [], [], [], "", 0
+    runs = runs_of(case)
+    for k, r in enumerate(runs):
+        pre = precompute(case, root)
+        pre["extra_files"] = sum(len(f) for _, _, f in os.walk(P["mock_dir"])) if case.get("mock") else 0
+        pre["copy_roots"] = [os.path.join(pre["W"], P["src_dir"]), os.path.join(pre["W"], P["externs_dir"])]
+        before = snapshot(top)
+        argv = argv_of(dict(case, mock=True if case.get("mock") else None), root, r)
+        try:
+            p = subprocess.run(["/venv/bin/python", os.path.join(common.REPO, "src/lian/main.py")] + argv,
+                               cwd=os.path.join(root, case["cwd"]), capture_output=True, text=True,
+                               timeout=120, preexec_fn=limits,
+                               # the /venv editable install points at /repo/src: put the tree under test first;
+                               # stub clang/clang++ first on PATH (-I runs stay hermetic)
+                               env=dict(os.environ, PYTHONPATH=os.path.join(common.REPO, "src"),
+                                        PATH=stub_bin() + os.pathsep + os.environ.get("PATH", "")))
+            status = "ok" if p.returncode == 0 else ("quit" if "[ERROR]" in p.stderr and "Traceback" not in p.stderr
+                                                     else "exc:exit%d" % p.returncode)
+            if "File name too long" in p.stderr:
+                status = "runaway"
+            tail = (p.stderr or "")[-300:]
+        except subprocess.TimeoutExpired:
+            status, tail = "runaway", "timeout 120 s"
+        after = snapshot(top)
+        statuses.append(status)
+        v = oracle(case, root, before, after, status, pre, r)
+        if v:
+            knowns.append(match_known(case, root, pre, v, before, after, r))
+            viols += v if len(runs) == 1 else [(kind, {"run": k, "detail": d}) for kind, d in v]
+        n_ws += sum(1 for q in after if inside(q, pre["W"]) and q not in before)
     if mock_before is not None:
         mock_after = snapshot(P["mock_dir"])
         if mock_after != mock_before:
-            viols.append(("outside-workspace-changed", sorted(p for p in set(mock_before) | set(mock_after)
-                                                              if mock_before.get(p) != mock_after.get(p))[:6]))
-    known = match_known(case, root, pre, viols, before, after) if viols else None
-    n_ws = sum(1 for p in after if inside(p, pre["W"]) and p not in before)
+            viols.append(("outside-workspace-changed", sorted(q for q in set(mock_before) | set(mock_after)
+                                                              if mock_before.get(q) != mock_after.get(q))[:6]))
+            knowns.append(None)
+    known = knowns[0] if knowns and all(x is not None and x == knowns[0] for x in knowns) else None
     shutil.rmtree(top, ignore_errors=True)
-    return {"case": case["name"], "status": status, "viols": relativise(viols, root), "known": known,
-            "created_in_ws": n_ws, "wall": round(time.time() - t, 1), "stderr_tail": tail.replace(root, "$R")}
+    return {"case": case["name"], "status": statuses[-1], "statuses": statuses, "viols": relativise(viols, root),
+            "known": known, "created_in_ws": n_ws, "wall": round(time.time() - t, 1),
+            "stderr_tail": tail.replace(root, "$R")}
 
 
 def subprocess_cases(tier):
@@ -718,7 +883,19 @@ def subprocess_cases(tier):
     cases = [mk("absent", ["."]), mk("relative", ["proj"], mock=True), mk("absolute", ["single.py"], force=False),
              mk("via-symlink", ["$R/cwd"]), mk("in-proj", ["proj"], sub="run", mock=True),
              mk("custom-contains", ["proj", "other/proj"])]
+    def mkf(kind, inputs, lang, runs, sub="lang", prepop=False, mock=None):
+        opt, wsdir, tree = ws_tree(kind, prepop)
+        return {"name": f"subprocess/{sub}/{kind}/{'+'.join(inputs)}/{lang}/" + ";".join(
+                    ("f" if r["force"] else "nf") + "".join(r["flags"]) for r in runs),
+                "tree": tree + [list(e) for e in C_TREE], "cwd": "cwd", "ws": opt, "inputs": inputs, "force": runs[0]["force"],
+                "runs": runs, "lang": lang, "sub": sub, "mock": mock}
+    cases += [mkf("relative", ["cproj"], "c", [{"force": True, "flags": ["-I"]}]),
+              mkf("absent", ["proj", "cproj"], "python,c", [{"force": True, "flags": ["-I", "-i", "$R/hdrs"]}], mock=True),
+              mkf("relative", ["proj"], "python", [{"force": True, "flags": []}, {"force": False, "flags": ["--incremental"]}])]
     if tier == "thorough":
+        cases += [mkf("via-symlink", ["cproj", "one.c"], "c,cpp", [{"force": True, "flags": ["-I"]}, {"force": False, "flags": ["--incremental", "-I"]}]),
+                  mkf("absent", ["."], "python", [{"force": True, "flags": ["--strict-parse-mode"]}]),
+                  mkf("in-cproj", ["cproj"], "c", [{"force": True, "flags": ["-I"]}], prepop=True)]
         cases += [mk("symlinked-name", ["$R"]), mk("nested-default", ["$R/cwd/w/lian_workspace/src/in"]),
                   mk("absent", ["lian_workspace"]), mk("trailing-slash", ["proj/"], sub="run", mock=True),
                   mk("leading-dotdot", [".."], sub="semantic"), mk("dot", ["single.py", "."], prepop=False)]
@@ -833,15 +1010,17 @@ def run(ctx):
     corpus = load_corpus()
     family = family_placements()
     n_rand = 1200 if tier == "quick" else 90000
-    cases = corpus + family + [random_placement(ctx.rng) for _ in range(n_rand)]
+    flagfam = flag_placements()
+    cases = corpus + family + flagfam + [random_placement(ctx.rng) for _ in range(n_rand)]
     workers = int(os.environ.get("VERIF_WORKERS", "6" if tier == "quick" else "12"))
 
-    stats = {"status": {}, "effects": {"creates": 0, "deletes": 0, "unchanged": 0}, "known": {}, "model_status": {}}
+    stats = {"status": {}, "effects": {"creates": 0, "deletes": 0, "unchanged": 0}, "known": {}, "model_status": {},
+             "flagged": {}}
     fragment = {"inside": 0, "outside": 0, "outside_forced_ok": 0, "violations_inside": 0,
                 "termination_hypotheses_hold": 0, "runaway_despite_termination_theorem": 0,
-                "cwd_deleted_oracle_only": 0}
+                "cwd_deleted_oracle_only": 0, "oracle_only_flagged": 0}
     distinct, corr_breaks, failing = set(), [], []
-    pinned_pairs, sample_idx = [], {len(corpus) + 3, len(cases) - 1}
+    pinned_pairs, sample_idx = [], {len(corpus) + 3, len(corpus) + len(family) + 1, len(cases) - 1}
     CHUNK = 6000          # evaluate, compare and forget chunk by chunk (memory)
     triples = ((i, case, rec, rep)
                for lo in range(0, len(cases), CHUNK)
@@ -855,17 +1034,22 @@ def run(ctx):
             pinned_pairs.append((case, rec))
         if i in sample_idx:
             ctx.cov["samples"].append(relativise({"name": case["name"], "cwd": case["cwd"], "ws": case["ws"], "inputs": case["inputs"],
-                                                  "force": case["force"], "tree": case["tree"][:12], "status": rec["status"],
+                                                  "force": case["force"], "lang": case.get("lang", "python"), "runs": case.get("runs"),
+                                              "tree": case["tree"][:12], "status": rec["status"],
                                                   "created": sorted(p for p in rec["real_fs"] if p not in rec["before_fs"])[:12]}, rec["root"]))
         root = rec["root"]
         sc = status_class(rec["status"])
         stats["status"][sc] = stats["status"].get(sc, 0) + 1
-        stats["model_status"][rep["status"]] = stats["model_status"].get(rep["status"], 0) + 1
-        if rep.get("in_fragment_bound"):
+        modelled = not rec.get("oracle_only")
+        if modelled:
+            stats["model_status"][rep["status"]] = stats["model_status"].get(rep["status"], 0) + 1
+        if modelled and rep.get("in_fragment_bound"):
             fragment["termination_hypotheses_hold"] += 1
             if status_class(rep["status"]) == "runaway" or sc == "runaway":
                 fragment["runaway_despite_termination_theorem"] += 1   # would contradict C18_copy_terminates_partial
-        if rep.get("in_fragment"):
+        if not modelled:
+            pass
+        elif rep.get("in_fragment"):
             fragment["inside"] += 1
             if any(k == "outside-workspace-changed" for k, _ in rec["viols"]):
                 fragment["violations_inside"] += 1      # would contradict C18_outside_unchanged_partial
@@ -881,8 +1065,16 @@ def run(ctx):
         if not created and not deleted:
             stats["effects"]["unchanged"] += 1
         if copied or deleted:           # non-trivial: something was copied or deleted
-            distinct.add(json.dumps(relativise([case["tree"], case["cwd"], case["ws"], case["inputs"], case["force"], case["mock"]], root), sort_keys=True))
-        if rec["cwd_deleted"]:
+            distinct.add(json.dumps(relativise([case["tree"], case["cwd"], case["ws"], case["inputs"], case["force"], case["mock"],
+                                                case.get("lang"), case.get("runs")], root), sort_keys=True))
+        if rec.get("oracle_only"):
+            # extra flags (-I, --incremental, --strict-parse-mode) or several consecutive runs: not modelled,
+            # the snapshot oracle alone decides
+            fragment["oracle_only_flagged"] += 1
+            key = "+".join(sorted({f for r in runs_of(case) for f in r["flags"] if f.startswith("-") and f != "-i"})) or "multi-run"
+            stats["flagged"][key] = stats["flagged"].get(key, 0) + 1
+            d = None
+        elif rec["cwd_deleted"]:
             # --force deleted the process's own working directory (run started inside the workspace): the
             # model lets every relative path fail from then on, the kernel still resolves leading ".."s from
             # the deleted directory.  Outside the fragment by definition; judged by the oracle only.
@@ -902,13 +1094,18 @@ def run(ctx):
     ctx.cov["exhaustive"] = True
     ctx.cov["rule"] = (f"corpus ({len(corpus)}) + the complete family workspace-option({len(WS_KINDS)}) x relation/input-kind(16-18) x "
                        f"prepopulated x force (+mock for two relations) = {len(family)} placements (exhaustive for that family) + "
+                       f"the flag family: {len(FLAG_SETS)} flag/language sets (-I with C/C++ inputs and a stub clang, --strict-parse-mode, "
+                       f"--incremental incl. second and third runs over the same workspace, language mixes) x 5 workspace options x 5 input "
+                       f"sets x prepopulated = {len(flagfam)} placements, judged by the snapshot oracle only + "
                        f"{n_rand} random placements (random tree of <=8 nodes with links, names containing the default name, random "
                        "workspace option and 1-3 inputs drawn from the tree); each is run in-process through the real ArgsParser, "
                        "set_workspace_dir, update_lang_config and WorkspaceBuilder.run in a fresh scratch tree; non-trivial = distinct "
                        "placement in which at least one file was copied or something was deleted")
     ctx.cov["outcomes"] = stats
     ctx.cov["fragment"] = dict(fragment, predicate="LianVerif.Workspace.inFragment (decidable hypothesis of the *_partial theorems), evaluated by lvdrv on every placement")
-    ctx.cov["correspondence"] = {"compared": len(cases), "differences": len(corr_breaks),
+    ctx.cov["correspondence"] = {"compared": len(cases) - fragment["oracle_only_flagged"] - fragment["cwd_deleted_oracle_only"],
+                                 "oracle_only": fragment["oracle_only_flagged"] + fragment["cwd_deleted_oracle_only"],
+                                 "differences": len(corr_breaks),
                                  "model": "LianVerif.Workspace.prepare Variant.live"}
 
     # 4. frozen model still reproduces the pinned behaviour on the corpus witnesses (model side only)
